@@ -115,17 +115,23 @@ THOROUGH_EXTRA = {
     "C13": [("faults", {"until": 3})],
     "C16": [("async", {"until": 4})],
 }
+EXTRA_BUDGET = int(os.environ.get("VERIF_MODEL_BUDGET", "600"))  # seconds of TLC per thorough-extra config
 DUMP_LIMIT = {"quick": 2500, "thorough": 12000}
 REPLAY_LIMIT = {"quick": 250, "thorough": 2500}
 
 
 def _one(args):
-    name, over, tier, liveness = args
+    name, over, tier, liveness, extra = args
     base, kw = MODELS[name]
     scn = dict(base)
     scn.update(over)
     scn = S.normalize(scn)
-    res = mc.check(scn, workers=4, timeout=900 if tier == "quick" else 3000, coverage=tier == "thorough", **kw)
+    if extra:
+        # the larger bounds of the thorough tier: breadth-first under TLC's own time budget (states explored and
+        # states left on the queue are reported; an invariant violation found within the budget still counts)
+        res = mc.check(scn, workers=4, timeout=EXTRA_BUDGET + 600, coverage=False, stop_after=EXTRA_BUDGET, **kw)
+    else:
+        res = mc.check(scn, workers=4, timeout=1800, coverage=tier == "thorough", **kw)
     if res["ok"] and res["states"] <= DUMP_LIMIT[tier]:
         # small enough: dump the labelled state graph (spec -> code replay, per-action edge counts)
         res2 = mc.check(scn, workers=2, timeout=900, dump=True, coverage=False, **kw)
@@ -138,12 +144,12 @@ def _one(args):
 
 
 def model_part(prop, tier, seed):
-    cfgs = list(CONFIGS.get(prop, []))
+    cfgs = [(n, o, False) for n, o in CONFIGS.get(prop, [])]
     if tier == "thorough":
-        cfgs += THOROUGH_EXTRA.get(prop, [])
+        cfgs += [(n, o, True) for n, o in THOROUGH_EXTRA.get(prop, [])]
     liveness = prop == "C05"
     with cf.ThreadPoolExecutor(max_workers=4) as ex:
-        results = list(ex.map(_one, [(n, o, tier, liveness) for n, o in cfgs]))
+        results = list(ex.map(_one, [(n, o, tier, liveness, x) for n, o, x in cfgs]))
     cov = {"states": 0, "transitions": 0, "configs": [], "drift": [], "graph_edges": 0, "graph_edges_covered_by_replay": 0,
            "replayed": 0, "replay_deviations": 0, "internal_traces_accepted": 0, "internal_traces_rejected": 0,
            "vacuous_actions": [], "model_counterexamples": []}
@@ -152,7 +158,8 @@ def model_part(prop, tier, seed):
         wd = res.pop("wd", None)
         dot = res.pop("dot", None)
         entry = {"model": res["model"], "overrides": res["overrides"], "ok": res["ok"], "states": res["states"],
-                 "transitions": res["transitions"], "secs": res["secs"], "actions": res.get("actions", {})}
+                 "transitions": res["transitions"], "secs": res["secs"], "actions": res.get("actions", {}),
+                 "exhaustive": res.get("exhaustive", res["ok"]), "left_on_queue": res.get("left_on_queue", 0)}
         if "liveness" in res:
             entry["liveness"] = res["liveness"]
             if not res["liveness"]["ok"]:
